@@ -76,3 +76,68 @@ def adjoint_value_rules(run, db):
                   '%s: <A x, y> - <x, companion(y)> = %s, not 0: the companion is not the adjoint' % (label, (lhs - rhs).key()[:200]), g.loc())
         n_ok += ok
     return n_ok
+
+
+def babinet_adjoint_value_rules(run, db):
+    """Wavefront.babinet / babinet_backprop as an adjoint pair on values: <B x, y> == <x, B^H y> for symbolic complex 2x2 fields, a symbolic
+    complex Lyot stop and a symbolic complex 2x2 focal-plane mask (also without a Lyot stop)"""
+    from ..core.interp import ClassRef
+    ci = db.cls(P + 'Wavefront')
+    fb, fbp = db.func(P + 'Wavefront.babinet'), db.func(P + 'Wavefront.babinet_backprop')
+    n_ok = 0
+    for with_lyot in (True, False):
+        it, dom = file_interp(db)
+        dom.positive = {'dx', 'efl', 'wavelength', 'fpm_dx'}
+        dom.nonzero = set(dom.positive)
+        label = 'Wavefront.babinet / babinet_backprop, 2x2 field, 2x2 mask, %s' % ('complex Lyot stop' if with_lyot else 'no Lyot stop')
+
+        def wf(tag):
+            it._reset_run([])
+            o = it.call_value(ClassRef(ci), [_field(dom, tag, (2, 2)), dom.sym('wavelength'), dom.sym('dx'), Const('pupil')], {}, None, None)
+            if not isinstance(o, Obj):
+                raise AnalysisError('%s: a Wavefront could not be built' % label)
+            return o
+        kw = lambda: {'efl': dom.sym('efl'), 'lyot': _field(dom, 'l', (2, 2)) if with_lyot else Const(None), 'fpm': _field(dom, 'm', (2, 2)), 'fpm_dx': dom.sym('fpm_dx'), 'method': Const('mdft')}
+        outs = []
+        for f, tag in ((fb, 'x'), (fbp, 'y')):
+            o = wf(tag)
+            res = it.run(f, kwargs=kw, self_obj=lambda o=o: o)
+            rets = [p for p in res if p.outcome == 'return']
+            if len(rets) != len(res) or len(rets) != 1 or not isinstance(rets[0].value, Obj) or not isinstance(rets[0].value.attrs.get('data'), FArr):
+                raise AnalysisError('%s: %s does not return a Wavefront whose data is followed' % (label, f.name))
+            outs.append(rets[0].value.attrs['data'])
+        Bx, Bhy = outs
+        lhs = _inner(dom, Bx, _field(dom, 'y', (2, 2)))
+        rhs = _inner(dom, _field(dom, 'x', (2, 2)), Bhy)
+        ok = lhs == rhs
+        run.check(ok, 'C06.chain', fbp.qual, 'babinet adjoint on values', '%s: <B x, y> == <x, B^H y> as an identity in the samples' % label,
+                  '%s: <B x, y> - <x, babinet_backprop(y)> = %s, not 0: the companion is not the adjoint of babinet' % (label, (lhs - rhs).key()[:200]), fbp.loc())
+        n_ok += ok
+    return n_ok
+
+
+def fd_adjoint_value_rules(run, db):
+    """SpatialGradient2D forward_x / backprop_x and forward_y / backprop_y as adjoint pairs on values: <D x, y> == <x, D^T y> as an identity
+    in symbolic real samples, for 3x4, 4x3, 2x5 and 5x2 arrays (the unequal sides tell the axes apart, the side of 2 has no interior)"""
+    O = 'prysm.x.optym.operators.SpatialGradient2D.'
+    ci = db.cls('prysm.x.optym.operators.SpatialGradient2D')
+    n_ok = 0
+    for suffix in ('x', 'y'):
+        ff, fb = db.func(O + 'forward_' + suffix), db.func(O + 'backprop_' + suffix)
+        for shape in ((3, 4), (4, 3), (2, 5), (5, 2), (4, 4)):
+            it, dom = file_interp(db)
+            label = 'SpatialGradient2D.forward_%s / backprop_%s, %dx%d real samples' % (suffix, suffix, shape[0], shape[1])
+
+            def arr(tag):
+                return FArr.of(shape, [dom.sym('%s%d%d' % (tag, i, j)) for i in range(shape[0]) for j in range(shape[1])], DType('f', 8))
+            Dx = _run1(it, ff, label, self_obj=lambda: Obj(ci), **{ff.params[1]: arr('x')})
+            Dty = _run1(it, fb, label, self_obj=lambda: Obj(ci), **{fb.params[1]: arr('y')})
+            if tuple(Dx.shape) != shape or tuple(Dty.shape) != shape:
+                run.check(False, 'C06.fd', fb.qual, 'adjoint on values', '', '%s: the results have shapes %s and %s' % (label, tuple(Dx.shape), tuple(Dty.shape)), fb.loc())
+                continue
+            lhs, rhs = _inner(dom, Dx, arr('y')), _inner(dom, arr('x'), Dty)
+            ok = lhs == rhs
+            run.check(ok, 'C06.fd', fb.qual, 'adjoint on values', '%s: <D x, y> == <x, D^T y> as an identity in the samples' % label,
+                      '%s: <D x, y> - <x, backprop(y)> = %s, not 0: the companion is not the transpose of the forward difference' % (label, (lhs - rhs).key()[:200]), fb.loc())
+            n_ok += ok
+    return n_ok
